@@ -37,6 +37,11 @@ fn oracle_bytes(or: &mut Oracle, bs: &[u8], prefixes: bool) {
         pos += n.len() + v.len();
     }
     if pos != consumed { or.fail("undecoded suffix handed back is not exactly what follows the last pair".into(), format!("# case flat-oracle\nnv.all {}", hexd(bs)), format!("suffix:{}", hexd(bs))); }
+    // size_hint at every step of the iteration: lower bound <= pairs still to come <= upper bound
+    { let mut it = nv::NVIter::new(bs); let mut yielded = 0usize;
+      loop { let (lo, hi) = it.size_hint(); let remaining = ps.len() - yielded.min(ps.len());
+          if lo > remaining || hi.map_or(false, |h| remaining > h) { or.fail(format!("size_hint {:?} after {yielded} pair(s), but {remaining} more pair(s) are decoded", (lo, hi)), format!("# case flat-oracle\nnv.all {}", hexd(bs)), format!("hint-step:{}", hexd(bs))); break; }
+          if it.next().is_none() { break; } yielded += 1; } }
     if ps.len() > bs.len() / 2 { or.fail("more pairs than size_hint upper bound".into(), format!("# case flat-oracle\nnv.all {}", hexd(bs)), format!("hint:{}", hexd(bs))); }
     // stops for good: the remainder does not start with a complete pair
     let (again, _) = decode_all(&bs[consumed..]);
